@@ -11,12 +11,18 @@ import (
 )
 
 func (u *UseCase) DeleteOld(ctx context.Context) error {
+	// The horizon is determined while no transaction can be between drawing its
+	// snapshot point and registering itself.
+	sequence.LockSnapshot()
 	tx, err := u.txRepo.Oldest(ctx)
 	if errors.Is(err, fs_db.ErrTxNotFound) {
 		tx = model.Transaction{
 			Seq: sequence.Next(),
 		}
-	} else if err != nil {
+		err = nil
+	}
+	sequence.UnlockSnapshot()
+	if err != nil {
 		return fmt.Errorf("tx repo oldest: %w", err)
 	}
 
